@@ -186,14 +186,7 @@ func g4LenClass(n int) string {
 	return "len:>=4M"
 }
 
-func g4Shape(name string) *gen.Shape {
-	for i := range gen.Shapes {
-		if gen.Shapes[i].Name == name {
-			return &gen.Shapes[i]
-		}
-	}
-	return nil
-}
+func g4Shape(name string) *gen.Shape { return gen.ShapeByName(name) }
 
 func g4FitLen(b []byte, n int) []byte {
 	if len(b) >= n {
